@@ -503,9 +503,12 @@ var c10CorpusDialect = []string{
 	`(?<x>q)(?<02>b)(a)`, `(?P<x>q)(?<02>b)(a)(c)`, `(?P<02>q)(?<02>b)(?<2>c)(a)`,
 	`(?<2>x)(?P<2>y)(?<2>z)(w)`, `(?<1>a)(b)`, `(a)(?<1>b)`, `(a)(?<n>b)(?<5>c)`, `(?<2>a)(b)(?<n>c)`, `(?<2>x)(?<2>y)(b)`, `(?<3>a)(?<-3>b)`, `(?<a>x)(?<2-a>y)(z)`, `(?<0>a)`, `(?<2>x)(?P<2>y)\k<2>(w)\2`,
 	`(?P<a>x)(?(?P=a)b)`, `(?P<a>x)(?(?P=a)b|c)`, `(?P<a>x)(?(?P=a)b|c|d)`, `(?P<a>x)(?(?P=a))`, `(?(?P=a)b)`, `(?P<a>x)(?(a)(?P=a)b)`, `(?P<a>x)(?((?P=a))b)`,
+	// a shorthand class or \p in range position (ECMAScript): the capture pre-scan clears its range flag and moves its cursor like the full scan
+	// (c605b5f: the stale flag made it leave the class at \PL and count the "(" inside as a group)
+	`(?n:[a-\d\PL(])(b)`, `(?n:[a-\w\PL(])(b)`, `(?n:[a-\s\PL(])(b)`, `(?n:[a-\D\pL(])(b)`, `[a-\d\PL(](b)\1`, `(?n:[a-\p\PL(])(b)`, `(?n:[\p-x-\PL(])(b)`, `(?n:[\p-x\PL(])(b)`, `(?n:[a-\d\PL(])(?<x>b)(c)`, `[a-\d(]`, `[a-\d\PL]`, `[a-\w-z\PL(](b)`, `(?x:[a-\d\PL#(])(b)`,
 }
 
-var c10InsertFrags = []string{"(", ")", "[", "]", "{", "}", "|", "*", "+", "?", "\\", "^", "$", ".", "(?", "(?:", "(?<n>", "(?=", "(?<=", "(?!", "(?>", "(?#", "(?i)", "(?x:", "\\1", "\\k<n>", "\\d", "\\p{L}", "{2}", "{2,}", "{1,3}?", "[^", "-[", "#", " ", "a", "-", "a-[]", "(?(?P="}
+var c10InsertFrags = []string{"(", ")", "[", "]", "{", "}", "|", "*", "+", "?", "\\", "^", "$", ".", "(?", "(?:", "(?<n>", "(?=", "(?<=", "(?!", "(?>", "(?#", "(?i)", "(?x:", "\\1", "\\k<n>", "\\d", "\\p{L}", "{2}", "{2,}", "{1,3}?", "[^", "-[", "#", " ", "a", "-", "a-[]", "(?(?P=", "a-\\d", "\\PL"}
 
 var c10TimeIn, c10TimeReal time.Duration
 
